@@ -8,6 +8,8 @@ namespace Car
 structure PutCb where
   id : Nat
   once : Bool
+  /-- what the callback itself does when it runs: nothing, or `OnPut` of one more (plain) callback -/
+  spawn : Option (Nat × Bool) := none
   deriving DecidableEq, Repr
 
 structure Deferred where
@@ -19,22 +21,27 @@ structure Deferred where
   deriving Repr
 
 inductive DOp
-  | onPut (id : Nat) (once : Bool)
+  | onPut (id : Nat) (once : Bool) (spawn : Option (Nat × Bool))
   | has (c : Cid)
   | put (c : Cid) (d : Bytes)
   | close
   deriving Repr
 
 /-- The Go loop `for i := 0; i < len(cb); i++ { cb[i](n); if once { cb = append(cb[:i], cb[i+1:]...); i-- } }`,
-    index-based with in-place removal. Returns the remaining callbacks and the ids fired, in order. -/
+    index-based with in-place removal, re-reading the list on every round: a callback that registers another
+    one appends to the very list being walked, so the new one is met later in the same Put.
+    Returns the remaining callbacks and the ids fired, in order. -/
 def fireLoop : (fuel i : Nat) → List PutCb → List Nat → List PutCb × List Nat
   | 0, _, cbs, fired => (cbs, fired)
   | fuel + 1, i, cbs, fired =>
     match cbs[i]? with
     | none => (cbs, fired)
     | some cb =>
-      if cb.once then fireLoop fuel i (cbs.eraseIdx i) (fired ++ [cb.id])
-      else fireLoop fuel (i + 1) cbs (fired ++ [cb.id])
+      let cbs1 := match cb.spawn with
+        | some (id2, once2) => cbs ++ [{ id := id2, once := once2 }]
+        | none => cbs
+      if cb.once then fireLoop fuel i (cbs1.eraseIdx i) (fired ++ [cb.id])
+      else fireLoop fuel (i + 1) cbs1 (fired ++ [cb.id])
 
 structure DOut where
   res : Out
@@ -43,7 +50,7 @@ structure DOut where
 
 /-- the deferred writer forces CARv1 for stream targets; `o` is the effective option set -/
 def Deferred.step (o : WOpts) (d : Deferred) : DOp → Deferred × DOut
-  | .onPut id once => ({ d with cbs := d.cbs ++ [⟨id, once⟩] }, { res := .ok })
+  | .onPut id once sp => ({ d with cbs := d.cbs ++ [{ id := id, once := once, spawn := sp }] }, { res := .ok })
   | .has c =>
     if d.closed then (d, { res := .err .closed })
     else match d.w with
@@ -52,7 +59,7 @@ def Deferred.step (o : WOpts) (d : Deferred) : DOp → Deferred × DOut
   | .put c data =>
     if d.closed then (d, { res := .err .closed })
     else
-      let (cbs', fired) := fireLoop (d.cbs.length + 1) 0 d.cbs []
+      let (cbs', fired) := fireLoop (2 * d.cbs.length + 2) 0 d.cbs []
       let s := match d.w with
         | none => (Store.create .storage o d.roots).1
         | some s => s
